@@ -5,6 +5,8 @@ import NodisVerif.Spec.List
 import NodisVerif.Proofs.C02
 import NodisVerif.Proofs.C02Api
 import NodisVerif.Proofs.C02Rotate
+import NodisVerif.Proofs.LinkedListRun
+import NodisVerif.Proofs.LinkedListTotal
 /-
   C02 — lists behave as exact sequences under every push/pop/index/trim command.
 
@@ -605,5 +607,287 @@ example : HotList demoState2 [107] { items := [[1], [2]], length := 2 } 1000 ∧
     RotDst demoState2 [107] [108] { items := [[9]], length := 1 } 1000 :=
   ⟨⟨⟨by decide, trivial⟩, rfl, _, rfl, rfl, by decide, rfl⟩,
    ⟨_, rfl, Or.inr ⟨rfl, _, rfl, rfl, by decide, rfl, Or.inr (Or.inl (by decide))⟩⟩⟩
+
+
+/-! ## 8. The doubly linked list itself: head / tail / prev / next / length on a heap of nodes
+
+  `Model/LinkedList.lean` mirrors ds/list/linked_list.go statement by statement on a heap of nodes
+  (pointers are indexes, nil is `none`, nodes are only appended, an unlinked node stays as garbage).  A result
+  is `Res.ok …`, `Res.panic` (nil dereference) or `Res.fuel` (a pointer walk ran out of its fuel, which is
+  `heap.size + 1` at every loop entry).  `LinkedList.Inv l` says: there is a chain `c` of distinct heap indexes,
+  head = first, tail = last (both nil iff `c` is empty), next of c[i] = c[i+1] (nil for the last), prev of
+  c[i] = c[i-1] (nil for the first), length = |c|.  `abs l` is the data met walking from head (under `Inv`:
+  the data along the chain), `absL l` the sequence-level list `{ items := abs l, length := l.length }`.
+
+  For ALL heaps satisfying `Inv` and all arguments (every `Int`): every method returns `Res.ok` (so it neither
+  panics nor runs out of fuel), keeps `Inv`, and its reply and the abstraction of its result are those of the
+  corresponding function of Model/DsList.lean on `absL l`.  Hence every theorem of sections 1–6 about
+  `DsList.*` on `l.items` now speaks about the pointer structure (`ptr_*_redis` spell three of them out).
+  The only hypothesis beyond `Inv`: LRem with `count = math.MinInt64` (Go: "remove all", because `-count`
+  overflows; DsList: up to 2^63 occurrences from the tail) needs a list of at most 2^63 nodes. -/
+
+section Pointer
+open NodisVerif.LinkedList
+
+/-- the chain of the invariant, spelled out with indexes (the statement of the work package) -/
+theorem ptr_inv_iff (l : PList) :
+    Inv l ↔ ∃ c : List Nat, c.Nodup ∧ Seg l.heap none c none ∧ l.head = c.head? ∧ l.tail = c.getLast? ∧
+      l.length = c.length :=
+  ⟨fun ⟨c, h⟩ => ⟨c, h.nodup, h.seg, h.head, h.tail, h.length⟩,
+   fun ⟨c, h1, h2, h3, h4, h5⟩ => ⟨c, ⟨h1, h2, h3, h4, h5⟩⟩⟩
+
+/-- `Seg` read pointwise: node k of the chain has prev = node k-1 (nil for the first) and next = node k+1
+    (nil for the last) -/
+theorem ptr_seg_pointwise (h : Heap) (c : List Nat) (hs : Seg h none c none) (k : Nat) (hk : k < c.length) :
+    ∃ n, h[c[k]]? = some n ∧
+      n.prev = (if k = 0 then none else c[k - 1]?) ∧ n.next = c[k + 1]? := by
+  have hsplit : c = c.take k ++ c[k] :: c.drop (k + 1) := by
+    rw [List.getElem_cons_drop, List.take_append_drop]
+  have hs' := hs
+  rw [hsplit] at hs'
+  obtain ⟨n, h1, h2, h3⟩ := seg_mid h _ _ _ none none hs'
+  refine ⟨n, h1, ?_, ?_⟩
+  · rw [h2, lst_none]
+    cases k with
+    | zero => simp
+    | succ k =>
+      simp only [Nat.add_one_ne_zero, ↓reduceIte, Nat.add_sub_cancel]
+      rw [List.getLast?_take]
+      simp only [Nat.add_one_ne_zero, ↓reduceIte, Nat.add_sub_cancel]
+      rw [Option.or_of_isSome (by simp; omega)]
+  · rw [h3, hd_none, List.head?_drop]
+
+theorem ptr_inv_empty : Inv LinkedList.empty ∧ absL LinkedList.empty = DsList.empty :=
+  ⟨⟨[], empty_invC⟩, by rw [absL_eq empty_invC]; rfl⟩
+
+/-- under the invariant the cached length is the number of nodes on the chain: `LList.WF` of sections 1–6 -/
+theorem ptr_wf (l : PList) (h : Inv l) : (absL l).WF := by
+  obtain ⟨c, hc⟩ := h
+  rw [absL_eq hc]; unfold LList.WF; simp
+
+/-- backward walk (from tail following prev) = reverse of the forward walk (from head following next) -/
+theorem bwd_eq_reverse_fwd (l : PList) (h : Inv l) : bwd l = (fwd l).reverse :=
+  bwd_eq_reverse_fwd_of_inv h
+
+/-- … node by node, not only their data -/
+theorem bwd_nodes_eq_reverse_fwd_nodes (l : PList) (h : Inv l) : bwdIdx l = (fwdIdx l).reverse := by
+  obtain ⟨c, hc⟩ := h
+  rw [fwdIdx_eq hc, bwdIdx_eq hc]
+
+theorem ptr_lpush (l : PList) (h : Inv l) (data : List Bytes) :
+    ∃ l', lpush l data = .ok l' ∧ Inv l' ∧ absL l' = DsList.lpush (absL l) data := by
+  obtain ⟨c, hc⟩ := h
+  obtain ⟨l', c', e, hi, ha, _⟩ := lpush_refines l c hc data
+  exact ⟨l', e, ⟨c', hi⟩, ha⟩
+
+theorem ptr_rpush (l : PList) (h : Inv l) (data : List Bytes) :
+    ∃ l', rpush l data = .ok l' ∧ Inv l' ∧ absL l' = DsList.rpush (absL l) data := by
+  obtain ⟨c, hc⟩ := h
+  obtain ⟨l', c', e, hi, ha, _⟩ := rpush_refines l c hc data
+  exact ⟨l', e, ⟨c', hi⟩, ha⟩
+
+theorem ptr_lpop (l : PList) (h : Inv l) (count : Int) :
+    ∃ l', lpop l count = .ok (l', (DsList.lpop (absL l) count).2) ∧ Inv l' ∧
+      absL l' = (DsList.lpop (absL l) count).1 := by
+  obtain ⟨c, hc⟩ := h
+  obtain ⟨l', c', e, hi, ha, _⟩ := lpop_refines l c hc count
+  exact ⟨l', e, ⟨c', hi⟩, ha⟩
+
+theorem ptr_rpop (l : PList) (h : Inv l) (count : Int) :
+    ∃ l', rpop l count = .ok (l', (DsList.rpop (absL l) count).2) ∧ Inv l' ∧
+      absL l' = (DsList.rpop (absL l) count).1 := by
+  obtain ⟨c, hc⟩ := h
+  obtain ⟨l', c', e, hi, ha, _⟩ := rpop_refines l c hc count
+  exact ⟨l', e, ⟨c', hi⟩, ha⟩
+
+theorem ptr_size (l : PList) (h : Inv l) : LinkedList.size l = .ok (DsList.size (absL l)) := by
+  obtain ⟨c, hc⟩ := h; exact size_refines l c hc
+
+theorem ptr_llen (l : PList) : llen l = DsList.llen (absL l) := rfl
+
+theorem ptr_llen_count (l : PList) (h : Inv l) : llen l = (abs l).length :=
+  ptr_wf l h
+
+theorem ptr_lrange (l : PList) (h : Inv l) (start stop : Int) :
+    LinkedList.lrange l start stop = .ok (DsList.lrange (absL l) start stop) := by
+  obtain ⟨c, hc⟩ := h; exact lrange_refines l c hc start stop
+
+theorem ptr_lindex (l : PList) (h : Inv l) (index : Int) :
+    LinkedList.lindex l index = .ok (DsList.lindex (absL l) index) := by
+  obtain ⟨c, hc⟩ := h; exact lindex_refines l c hc index
+
+theorem ptr_lset (l : PList) (h : Inv l) (index : Int) (value : Bytes) :
+    ∃ l', LinkedList.lset l index value = .ok (l', (DsList.lset (absL l) index value).2) ∧ Inv l' ∧
+      absL l' = (DsList.lset (absL l) index value).1 := by
+  obtain ⟨c, hc⟩ := h
+  obtain ⟨l', e, hi, ha, _⟩ := lset_refines l c hc index value
+  exact ⟨l', e, ⟨c, hi⟩, ha⟩
+
+theorem ptr_linsert (l : PList) (h : Inv l) (pivot data : Bytes) (before : Bool) :
+    ∃ l', LinkedList.linsert l pivot data before = .ok (l', (DsList.linsert (absL l) pivot data before).2) ∧
+      Inv l' ∧ absL l' = (DsList.linsert (absL l) pivot data before).1 := by
+  obtain ⟨c, hc⟩ := h
+  obtain ⟨l', c', e, hi, ha, _⟩ := linsert_refines l c hc pivot data before
+  exact ⟨l', e, ⟨c', hi⟩, ha⟩
+
+/-- all three variants (lRem, lRevRem, lRemAll) behind LRem's dispatch on the sign of `count` -/
+theorem ptr_lrem (l : PList) (h : Inv l) (count : Int) (value : Bytes)
+    (hmin : count = minInt64 → ((abs l).length : Int) ≤ 9223372036854775808) :
+    ∃ l', LinkedList.lrem l count value = .ok (l', (DsList.lrem (absL l) count value).2) ∧ Inv l' ∧
+      absL l' = (DsList.lrem (absL l) count value).1 := by
+  obtain ⟨c, hc⟩ := h
+  have hlen : (abs l).length = c.length := by rw [abs_eq hc]; simp
+  obtain ⟨l', c', e, hi, ha, _⟩ := lrem_refines l c hc count value (by rw [← hlen]; exact hmin)
+  exact ⟨l', e, ⟨c', hi⟩, ha⟩
+
+theorem ptr_ltrim (l : PList) (h : Inv l) (start stop : Int) :
+    ∃ l', LinkedList.ltrim l start stop = .ok l' ∧ Inv l' ∧ absL l' = DsList.ltrim (absL l) start stop := by
+  obtain ⟨c, hc⟩ := h
+  obtain ⟨l', c', e, hi, ha, _⟩ := ltrim_refines l c hc start stop
+  exact ⟨l', e, ⟨c', hi⟩, ha⟩
+
+/-- GetValue: the pointer walk feeds the byte codec of Model/Codec.lean -/
+theorem ptr_getValue (l : PList) (h : Inv l) : getValue l = .ok (Codec.encodeList (absL l)) := by
+  obtain ⟨c, hc⟩ := h; exact getValue_refines l c hc
+
+/-- SetValue: the decoding loop of Model/Codec.lean, every element through RPush -/
+theorem ptr_setValue (l : PList) (h : Inv l) (b : Bytes) (fuel : Nat) (r : LList)
+    (hd : Codec.decodeList b (absL l) fuel = some r) :
+    ∃ l', setValue b l fuel = .ok l' ∧ Inv l' ∧ absL l' = r := by
+  obtain ⟨c, hc⟩ := h
+  obtain ⟨l', c', e, hi, ha⟩ := setValue_refines fuel b l c hc r hd
+  exact ⟨l', e, ⟨c', hi⟩, ha⟩
+
+/-- … and it fails exactly when the sequence-level decoder does (slice out of range = Go's panic) -/
+theorem ptr_setValue_fails (l : PList) (h : Inv l) (b : Bytes) (fuel : Nat)
+    (hd : Codec.decodeList b (absL l) fuel = none) :
+    setValue b l fuel = .panic ∨ setValue b l fuel = .fuel := by
+  obtain ⟨c, hc⟩ := h; exact setValue_fails fuel b l c hc hd
+
+/-- three of the sequence-level theorems restated on the pointer structure: LRANGE / LINDEX return, and
+    LTRIM leaves, exactly what Redis' semantics says for the data along the chain -/
+theorem ptr_lrange_redis (l : PList) (h : Inv l) (start stop : Int) :
+    LinkedList.lrange l start stop = .ok (Spec.List.lrange (abs l) start stop) := by
+  rw [ptr_lrange l h, lrange_spec]; rfl
+
+theorem ptr_lindex_redis (l : PList) (h : Inv l) (index : Int) :
+    LinkedList.lindex l index = .ok (Spec.List.lindex (abs l) index) := by
+  rw [ptr_lindex l h, lindex_spec _ (ptr_wf l h)]; rfl
+
+theorem ptr_ltrim_redis (l : PList) (h : Inv l) (start stop : Int) :
+    ∃ l', LinkedList.ltrim l start stop = .ok l' ∧ Inv l' ∧ abs l' = Spec.List.ltrim (abs l) start stop := by
+  obtain ⟨l', e, hi, ha⟩ := ptr_ltrim l h start stop
+  refine ⟨l', e, hi, ?_⟩
+  have := congrArg LList.items ha
+  rw [ltrim_spec] at this
+  exact this
+
+/-- one call of any method: under `Inv` (and the 2^63 bound for LRem MinInt64) the pointer structure
+    returns `ok` — no walk runs out of fuel, nothing dereferences nil — with the reply and the new abstract
+    list of the sequence model, and `Inv` holds again.  (`stepD` is `none` only for SetValue on bytes whose
+    decoding panics in Go: `ptr_setValue_fails`.) -/
+theorem ptr_step (l : PList) (h : Inv l) (op : Op) (hok : OpOk (absL l) op) (L' : LList) (r : Reply)
+    (hd : stepD (absL l) op = some (L', r)) :
+    ∃ l', stepP l op = .ok (l', r) ∧ Inv l' ∧ absL l' = L' := by
+  obtain ⟨c, hc⟩ := h
+  obtain ⟨l', c', e, hi, ha⟩ := LinkedList.step_refines l c hc op hok L' r hd
+  exact ⟨l', e, ⟨c', hi⟩, ha⟩
+
+/-- under the invariant no method runs out of fuel and no method panics -/
+theorem fuel_sufficient (l : PList) (h : Inv l) (op : Op) (hok : OpOk (absL l) op)
+    (hd : (stepD (absL l) op).isSome) : stepP l op ≠ .fuel ∧ stepP l op ≠ .panic := by
+  obtain ⟨⟨L', r⟩, hs⟩ := Option.isSome_iff_exists.mp hd
+  obtain ⟨l', e, _⟩ := ptr_step l h op hok L' r hs
+  rw [e]; exact ⟨by simp, by simp⟩
+
+/-- from any list satisfying `Inv`, any finite sequence of methods keeps `Inv` and refines the run of DsList -/
+theorem run_refines_ptr (l : PList) (h : Inv l) (ops : List Op) (hok : RunOk (absL l) ops)
+    (L' : LList) (rs : List Reply) (hd : runD (absL l) ops = some (L', rs)) :
+    ∃ l', runP l ops = .ok (l', rs) ∧ Inv l' ∧ absL l' = L' := by
+  obtain ⟨c, hc⟩ := h
+  obtain ⟨l', c', e, hi, ha⟩ := run_refines_invC ops l c hc hok L' rs hd
+  exact ⟨l', e, ⟨c', hi⟩, ha⟩
+
+/-- from the empty list: every reachable state satisfies `Inv`, is the state of the sequence model, gave
+    the sequence model's replies, and its backward walk is the reverse of its forward walk -/
+theorem run_inv (ops : List Op) (hok : RunOk DsList.empty ops) (L' : LList) (rs : List Reply)
+    (hd : runD DsList.empty ops = some (L', rs)) :
+    ∃ l', runP LinkedList.empty ops = .ok (l', rs) ∧ Inv l' ∧ absL l' = L' ∧ bwd l' = (fwd l').reverse := by
+  have he := ptr_inv_empty
+  obtain ⟨l', e, hi, ha⟩ := run_refines_ptr LinkedList.empty he.1 ops (by rw [he.2]; exact hok) L' rs
+    (by rw [he.2]; exact hd)
+  exact ⟨l', e, hi, ha, bwd_eq_reverse_fwd l' hi⟩
+
+/-- `RunOk` is only about LRem with count = MinInt64: a run without such a call needs no side condition -/
+theorem runOk_of_no_minInt64 (ops : List Op) (h : ∀ v, Op.lrem minInt64 v ∉ ops) (l : LList) : RunOk l ops := by
+  induction ops generalizing l with
+  | nil => trivial
+  | cons op rest ih =>
+    refine ⟨?_, fun l' _ _ => ih (fun v hm => h v (List.mem_cons_of_mem _ hm)) l'⟩
+    cases op with
+    | lrem c v =>
+      intro hc; subst hc
+      exact absurd (List.mem_cons_self ..) (h v)
+    | _ => trivial
+
+/-- unconditionally (also for LRem MinInt64 on more than 2^63 nodes, where the sequence model is left):
+    under `Inv` every method returns `ok` and `Inv` holds again — no walk runs out of fuel, no nil is
+    dereferenced — except SetValue on bytes whose decoding loop panics in Go (slice bounds out of range),
+    which is exactly when the sequence-level decoder `Codec.decodeList` fails -/
+theorem ptr_step_total (l : PList) (h : Inv l) (op : Op) :
+    (∃ l' r, stepP l op = .ok (l', r) ∧ Inv l') ∨
+    (∃ b, op = .setValue b ∧ stepP l op = .panic ∧ stepD (absL l) op = none) := by
+  obtain ⟨c, hc⟩ := h
+  rcases step_total l c hc op with ⟨l', c', r, e, hi⟩ | hp
+  · exact Or.inl ⟨l', r, e, ⟨c', hi⟩⟩
+  · exact Or.inr hp
+
+/-- the decoding loop of SetValue never uses up `len(bytes) + 1` units of fuel -/
+theorem ptr_setValue_fuel (l : PList) (h : Inv l) (b : Bytes) : setValue b l (b.length + 1) ≠ .fuel := by
+  obtain ⟨c, hc⟩ := h
+  exact setValue_no_fuel _ b l c hc (by omega)
+
+/-- every state reachable from the empty list by any finite sequence of methods satisfies `Inv`, its
+    backward walk is the reverse of its forward walk, and no run ever stops for lack of fuel
+    (no side condition at all) -/
+theorem run_inv_total (ops : List Op) :
+    runP LinkedList.empty ops ≠ .fuel ∧
+    ∀ l' rs, runP LinkedList.empty ops = .ok (l', rs) → Inv l' ∧ bwd l' = (fwd l').reverse := by
+  obtain ⟨h1, h2⟩ := run_total ops LinkedList.empty [] empty_invC
+  refine ⟨h1, fun l' rs h => ?_⟩
+  have hi : Inv l' := h2 l' rs h
+  exact ⟨hi, bwd_eq_reverse_fwd l' hi⟩
+
+/-- non-vacuity: a concrete heap with garbage (node 1 was unlinked and still points into the chain)
+    satisfying `Inv`, with chain 3 → 0 → 2 -/
+def demoPtr : PList :=
+  { heap := #[{ data := [97], next := some 2, prev := some 3 }, { data := [120], next := some 2, prev := some 0 },
+              { data := [97], next := none, prev := some 0 }, { data := [98], next := some 0, prev := none }],
+    head := some 3, tail := some 2, length := 3 }
+
+example : Inv demoPtr ∧ abs demoPtr = [[98], [97], [97]] ∧ bwd demoPtr = [[97], [97], [98]] :=
+  ⟨⟨[3, 0, 2], by decide, ⟨_, rfl, rfl, rfl, _, rfl, rfl, rfl, _, rfl, rfl, rfl, trivial⟩, rfl, rfl, rfl⟩,
+   by decide, by decide⟩
+
+/-- … reached by the model's own methods from the empty list (RPush a x a; LPush b; LRem 1 x), and the
+    hypotheses of `run_inv` hold for that run -/
+example : (runP LinkedList.empty [.rpush [[97], [120], [97]], .lpush [[98]], .lrem 1 [120]]).bind
+      (fun r => .ok (r.1 == demoPtr)) = .ok true ∧
+    RunOk DsList.empty [.rpush [[97], [120], [97]], .lpush [[98]], .lrem 1 [120]] ∧
+    (runD DsList.empty [.rpush [[97], [120], [97]], .lpush [[98]], .lrem 1 [120]]).isSome :=
+  ⟨by decide, runOk_of_no_minInt64 _ (by intro v hm; simp [minInt64] at hm) _, by decide⟩
+
+/-- the side condition of `ptr_lrem` / `OpOk` on the same state, for the one count that needs it -/
+example : (minInt64 = minInt64 → ((abs demoPtr).length : Int) ≤ 9223372036854775808) ∧
+    OpOk (absL demoPtr) (.lrem minInt64 [97]) :=
+  ⟨fun _ => by decide, fun _ => by decide⟩
+
+/-- the hypothesis of `ptr_setValue` on the same state: two well-formed length-prefixed elements -/
+example : (Codec.decodeList [2, 98, 4, 99, 99] (absL demoPtr) 6).isSome := by decide
+
+/-- … and of `ptr_setValue_fails`: a length prefix that points past the end of the bytes -/
+example : Codec.decodeList [6, 98] (absL demoPtr) 3 = none := by decide
+
+end Pointer
 
 end NodisVerif.C02
